@@ -23,7 +23,7 @@ REQUIRE = {"calls-on-a-definition-used-before": 20000, "definitions-used-before-
 KINDS = ["QUBIT", "REGISTER", "INT", "FLOAT", "NONE"]
 VALUE_CLASSES = ["qubit", "register", "int", "intfloat", "float", "constI", "constFint", "constF", "pQ", "pR", "pI", "pF", "pN",
                  "inf", "nan", "hugefloat", "constFinf", "npint", "npfloat", "npintfloat", "zero", "zerofloat", "none",
-                 "constCint", "constCintf", "constCfrac"]
+                 "constCint", "constCintf", "constCfrac", "fracint", "frac", "hugefracint", "hugefrac", "hugeint"]
 
 
 def make_values():
@@ -43,6 +43,10 @@ def make_values():
         # a constant defined through another constant has the number of that one
         "constCint": Constant("cci", Constant("cci0", 3)), "constCintf": Constant("ccif", Constant("ccif0", 2.0)),
         "constCfrac": Constant("ccf", Constant("ccf0", 2.5)),
+        # real numbers that are neither int nor float, and integers beyond the range of a float
+        "fracint": __import__("fractions").Fraction(4, 2), "frac": __import__("fractions").Fraction(5, 2),
+        "hugefracint": __import__("fractions").Fraction(10 ** 400, 1), "hugefrac": __import__("fractions").Fraction(10 ** 400, 3),
+        "hugeint": 2 ** 1024,
         "npint": __import__("numpy").int64(3), "npfloat": __import__("numpy").float64(0.25), "npintfloat": __import__("numpy").float32(2.0),
     }
 
@@ -60,10 +64,12 @@ def fits(kind, vc):
     if kind == "INT":
         if vc == "pF":
             return None
-        return vc in ("int", "intfloat", "hugefloat", "constI", "constFint", "pI", "pN", "npint", "npintfloat", "zero", "zerofloat", "constCint", "constCintf")
+        return vc in ("int", "intfloat", "hugefloat", "constI", "constFint", "pI", "pN", "npint", "npintfloat", "zero", "zerofloat", "constCint", "constCintf", "fracint", "hugefracint", "hugeint")
     if kind == "FLOAT":
-        if vc in ("inf", "nan", "constFinf"):
-            return None  # floats, but not finite numbers: the statement does not say
+        if vc in ("inf", "nan", "constFinf", "hugefracint", "hugefrac", "hugeint"):
+            return None  # floats, but not finite numbers -- or numbers no float can hold: the statement does not say
+        if vc in ("fracint", "frac"):
+            return True
         return vc in ("int", "intfloat", "hugefloat", "float", "constI", "constFint", "constF", "pI", "pF", "pN", "npint", "npfloat", "npintfloat", "zero", "zerofloat", "constCint", "constCintf", "constCfrac")
     raise ValueError(kind)
 
